@@ -158,7 +158,7 @@ func execCfidx(f []string) string {
 
 func genCfidx(g *core.Gen) {
 	r := g.R
-	for i := 0; i < g.N(70, 4000); i++ {
+	for i := 0; i < g.N(40, 3000); i++ {
 		nb := 1 + r.Intn(5)
 		specs := make([]string, nb)
 		var pool [][]byte
